@@ -47,12 +47,14 @@ fn info() -> String {
         "other"
     };
     format!(
-        "cfg arch={} std={} tf_sse41={} tf_avx2={} simd128={} cpu_sse41=0 cpu_avx2=0 debug_assertions={} ptr={} endian={}",
+        "cfg arch={} std={} tf_sse41={} tf_avx2={} simd128={} cpu_sse41={} cpu_avx2={} debug_assertions={} ptr={} endian={}",
         arch,
         cfg!(feature = "std") as u8,
         cfg!(target_feature = "sse4.1") as u8,
         cfg!(target_feature = "avx2") as u8,
         cfg!(target_feature = "simd128") as u8,
+        cfg!(target_feature = "sse4.1") as u8,
+        cfg!(target_feature = "avx2") as u8,
         cfg!(debug_assertions) as u8,
         core::mem::size_of::<usize>() * 8,
         if cfg!(target_endian = "little") { "little" } else { "big" }
@@ -61,7 +63,7 @@ fn info() -> String {
 
 fn main() {
     println!("{}", info());
-    let mut m = Machine::new(Cpu { sse41: false, avx2: false });
+    let mut m = Machine::new(Cpu { sse41: cfg!(target_feature = "sse4.1"), avx2: cfg!(target_feature = "avx2") });
     let mut scratch = vec![0u8; 1 << 16];
     let mut obuf: Vec<u8> = Vec::with_capacity(1 << 12);
     for line in OPS.split(|&c| c == b'\n') {
